@@ -35,14 +35,20 @@ HARNESSES = [
 ENCODED = ["heap_print::non_quoted_token", "non_quoted_graphic_token", "char_to_string",
            "requires_space", "needs_bracketing", "char-class macros (small_letter_char, "
            "alpha_numeric_char, graphic_token_char, solo_char, ...)", "OpDesc::build_with/get",
-           "OpDeclSpec::is_strict_left/right"]
+           "OpDeclSpec::is_strict_left/right", "char_to_string's format! arm (MIR)"]
 ASSUME = ["ASCII texts (one harness adds a Latin-extended first char)",
-          "the hex-escape branch of char_to_string (format!) is outside",
+          "K stubs std::fmt::format; the hex-escape branch of char_to_string is decided by the M part "
+          "(the value handed to LowerHex is the whole code point)",
           "S1 arcu epoch stub where Atom::as_str is reached"]
 BOUNDS = "texts of 0..3 chars (quick), 4 (thorough); all priorities 0..1200 x 7 specifiers"
 OUTSIDE = ("HCPrinter's walk (heap iterators, op-table IndexMap), write_canonical, decisions that "
            "depend on the operator table, non-ASCII beyond U+024F")
 
 
+def mpost(results):
+    from vlib.mirsmt import c55
+    return c55.run()
+
+
 def run(tier):
-    return kprop.run("C55", HARNESSES, tier, ASSUME, ENCODED, BOUNDS, OUTSIDE)
+    return kprop.run("C55", HARNESSES, tier, ASSUME, ENCODED, BOUNDS, OUTSIDE, post=mpost)
